@@ -31,7 +31,7 @@ ASSUMPTIONS = [
     'containers hold literals only (the statement says: literals, containers of literals or nested Parameterized '
     'objects); Parameterized values sit directly in Parameter/ClassSelector parameters, nested to depth 2',
 ]
-REQUIRED = {'pprint_evals': 1000, 'script_repr_evals': 1000, 'values_related_to_default': 100, 'concurrent_prints': 30, 'prints_interrupted': 6, 'class_default_histories': 6, 'parameters_added_after_first_print': 6}
+REQUIRED = {'pprint_evals': 1000, 'script_repr_evals': 1000, 'values_related_to_default': 100, 'concurrent_prints': 30, 'prints_interrupted': 6, 'class_default_histories': 6, 'parameters_added_after_first_print': 6, 'keyword_only_signatures': 20}
 
 MODNAME = 'pvgen_c20'
 _st = {}
@@ -444,13 +444,16 @@ def run_case(idx, rng, P, rep):
             else:
                 v = gen_value(rng, byname[k]['ptype'], inners, byname[k])
                 sigdefaults[k] = v
-        args = ['self'] + pos + [f'{k}=_sigdef[{k!r}]' for k in kws] + (['**params'] if shape == 'mixed' else [])
+        kwonly = bool(kws) and rng.random() < 0.3       # def __init__(self, a, *, b=..., **params): keyword-only parameters
+        if kwonly:
+            rep.count('keyword_only_signatures')
+        args = ['self'] + pos + (['*'] if kwonly else []) + [f'{k}=_sigdef[{k!r}]' for k in kws] + (['**params'] if shape == 'mixed' else [])
         body = 'super(_cls[0], self).__init__(' + ', '.join(f'{k}={k}' for k in pos + kws) + (', **params' if shape == 'mixed' else '') + ')'
         src = f'def __init__({", ".join(args)}):\n    {body}\n'
         env = {'_sigdef': sigdefaults, '_cls': [None]}
         exec(src, env)
         ns['__init__'] = env['__init__']
-        sigdesc = f'{shape}:pos={len(pos)},kw={len(kws)}'
+        sigdesc = f'{shape}:pos={len(pos)},kw={len(kws)}' + (',kwonly' if kwonly else '')
     cname = f'Outer{idx}'
     cls = type(cname, (param.Parameterized,), ns)
     if shape != 'varkw':
